@@ -130,7 +130,7 @@ def prepare(src=None, quiet=False):
         _build_extensions(src, cache)
     _remove_stale()
     owner = os.getpid()
-    scratch = tempfile.mkdtemp(prefix=f"cutadapt-verif-src-{owner}-", dir=_scratch_parent())
+    scratch = tempfile.mkdtemp(prefix=f"cutadapt-verif-src-{owner:08d}-", dir=_scratch_parent())
     _SCRATCH.append((owner, scratch))
     atexit.register(cleanup)
     pkg = os.path.join(scratch, "cutadapt")
